@@ -241,6 +241,16 @@ int worker_main(int argc, char** argv, Engine& engine) {
         v.set("index", (double)i); v.set("scenario", sc); v.set("result", result_json(r));
         fprintf(g_proto, "V %lu %s\n", (unsigned long)i, v.dump().c_str());
       }
+      if (sim::g.tainted) {   // see Sim::begin(): retire after an asynchronously abandoned run
+        Json st = Json::object();
+        st.set("runs", (double)done); st.set("nontrivial", (double)nontrivial);
+        st.set("wall_s", now_s() - t0); st.set("sim_time_s", sim_time);
+        st.set("counters", agg); st.set("samples", sample_list);
+        fprintf(g_proto, "STATS %s\n", st.dump().c_str());
+        fprintf(g_proto, "RETIRE %lu\n", (unsigned long)(i + step));
+        fflush(g_proto);
+        _Exit(0);
+      }
       if ((int)sample_list.size() < samples && (r.nontrivial || n < 1)) {
         Json s = Json::object();
         s.set("index", (double)i); s.set("scenario", sc); s.set("verdict", r.verdict);
@@ -270,7 +280,10 @@ int worker_main(int argc, char** argv, Engine& engine) {
       if (!ok) { fprintf(g_proto, "RES {\"verdict\":\"BAD_SCENARIO\",\"detail\":\"%s\"}\n", err.c_str()); continue; }
       fprintf(g_proto, "S 0\n");
       RunResult r = engine.run(sc);
-      fprintf(g_proto, "RES %s\n", result_json(r).dump().c_str());
+      Json rj = result_json(r);
+      if (sim::g.tainted) rj.set("retire", true);          // tells the supervisor that this process leaves now
+      fprintf(g_proto, "RES %s\n", rj.dump().c_str());
+      if (sim::g.tainted) { fflush(g_proto); _Exit(0); }   // the supervisor starts a fresh serve process on demand
     }
     return 0;
   }
@@ -286,6 +299,7 @@ int worker_main(int argc, char** argv, Engine& engine) {
     Json out = result_json(r);
     fprintf(g_proto, "REPLAY %s\n", out.dump().c_str());
     fprintf(g_proto, "verdict: %s\nsig: %s\ndetail: %s\n", r.verdict.c_str(), r.sig.c_str(), r.detail.c_str());
+    if (sim::g.tainted) { fflush(g_proto); _Exit(r.verdict == "OK" ? 0 : 1); }
     if (rep.has("expect_fp") && rep["expect_fp"].as_str() != hex64(r.fingerprint))
       fprintf(g_proto, "NOTE fingerprint differs from recorded (%s vs %s)\n", hex64(r.fingerprint).c_str(), rep["expect_fp"].as_str().c_str());
     return r.verdict == "OK" ? 0 : 1;
